@@ -153,3 +153,6 @@ for _u in list(units_of("C05")):
 from contracts import lemmas as _L  # noqa: E402
 register(Unit(P, "LEMMA/STABLE", _L.h_stable, functions=[], replay=_replay_gcrace,
               uses=_L.STABLE_USES + ["DELETE-SAFE:deleted-file-is-not-reachable-or-protected", "DELETE-SAFE:deleted-file-is-older-than-grace"]))
+
+from contracts import helpers as _HLP  # noqa: E402
+_HLP.register_under("C06", ["HELPER/validate_data_files", "HELPER/validate_file_exists"])
